@@ -7,8 +7,13 @@
 (*          content (con), and whether the response has the shape "status header, then  *)
 (*          an unframed body stream" (str: the inter-node BACKUP_STREAM command).       *)
 (* Store  = credential store over {user u (password p), all-users entry *}; the         *)
-(*          permissions of both range over the family's own permissions plus one        *)
-(*          unrelated permission ("other") and "all".                                    *)
+(*          permissions of both range over the family's own permissions, its SIBLING     *)
+(*          permissions (sib: the permissions closest to the required ones that must     *)
+(*          NOT authorise the family -- join-read-only / join-read-replica for a voter   *)
+(*          JOIN, join for a non-voter JOIN, query / load for execute, ...) and "all".   *)
+(*          u holds every subset (each sibling alone and in every combination); the      *)
+(*          all-users entry holds nothing, one permission, all siblings, or all required *)
+(*          permissions (FullStar = TRUE: every subset as well).                         *)
 (* Pres   = how credentials are presented: none, blank (empty user and password),        *)
 (*          unknown user, wrong password, right password.                                *)
 (* The authorisation rule and the decision procedure as coded are those of Auth.tla      *)
@@ -22,13 +27,30 @@
 (* stops after it has written an error header.                                            *)
 EXTENDS Naturals, Sequences, FiniteSets, TLC, Json
 
-CONSTANTS Unchecked, MutEach, NoBodyAfterError, Roles
+CONSTANTS Unchecked, MutEach, NoBodyAfterError, Roles, FullStar
 
 A == INSTANCE Auth WITH Users <- {"u", "*"}, Pws <- {"p", "q"}, Perms <- {"all"}, QPerms <- {"all"}, MaxLen <- 0,
                         FreshEntry <- TRUE, LastWins <- TRUE, AllUsersFirst <- TRUE, NeedUsername <- TRUE,
                         ExactPassword <- TRUE, PermOrAll <- TRUE, file <- <<>>
 
-Row(f, req, eff, con, str) == [f |-> f, req |-> req, eff |-> eff, con |-> con, str |-> str]
+(* sibling permissions: for a required permission p, the permissions a careless handler is most *)
+(* likely to accept in its place (same resource, other verb / other role)                        *)
+SibOf(p) == CASE p = "execute"    -> {"query", "load"}
+              [] p = "query"      -> {"execute", "load"}
+              [] p = "backup"     -> {"load", "snapshot"}
+              [] p = "load"       -> {"backup", "execute"}
+              [] p = "snapshot"   -> {"backup", "load"}
+              [] p = "remove"     -> {"join", "leader-ops"}
+              [] p = "status"     -> {"ready", "ui"}
+              [] p = "ready"      -> {"status"}
+              [] p = "leader-ops" -> {"remove", "status"}
+              [] p = "ui"         -> {"status"}
+              [] p = "join"       -> {"join-read-only", "join-read-replica"}
+              [] p = "join-read-only"    -> {"join"}
+              [] p = "join-read-replica" -> {"join"}
+              [] OTHER -> {}
+Sibs(req) == (UNION {SibOf(p) : p \in UNION req}) \ (UNION req)
+Row(f, req, eff, con, str) == [f |-> f, req |-> req, sib |-> Sibs(req), eff |-> eff, con |-> con, str |-> str]
 One(p) == {{p}}
 NoPerm == {{}}                      \* one empty conjunction: always authorised (no permission by design)
 
@@ -110,7 +132,9 @@ Table == HTTPTable \cup CmdTable
 Fams  == {r.f : r \in Table}
 PermFams == {r.f : r \in {x \in Table : x.req # NoPerm}}      \* families that require a permission
 
-RP(r)  == (UNION r.req) \cup {"other", "all"}
+RP(r)  == (UNION r.req) \cup r.sib \cup {"all"}
+StarSets(r) == IF FullStar THEN SUBSET RP(r)
+               ELSE {{}} \cup {{p} : p \in RP(r)} \cup {r.sib} \cup {UNION r.req}
 Pres   == {"none", "blank", "unknown", "wrongpw", "right"}
 
 (* a case = table row + role of the addressed node + credential store + presentation *)
@@ -132,8 +156,8 @@ Check(f) == f \notin Unchecked /\ ~MutEach
 
 Init == /\ TLCSet(2, {})
         /\ \E r \in Table, ro \in Roles, p \in Pres :
-             \E U \in SUBSET RP(r), S \in SUBSET RP(r) :
-                LET c0 == [f |-> r.f, req |-> r.req, eff |-> r.eff, con |-> r.con, str |-> r.str,
+             \E U \in SUBSET RP(r), S \in StarSets(r) :
+                LET c0 == [f |-> r.f, req |-> r.req, sib |-> r.sib, eff |-> r.eff, con |-> r.con, str |-> r.str,
                            role |-> ro, U |-> U, S |-> S, pres |-> p]
                 IN  c = [az |-> Authorized(c0)] @@ c0        \* az: the verdict of the documented rule, fixed per case
         /\ pc = "recv" /\ authz = FALSE /\ hdr = "none" /\ body = FALSE /\ effect = FALSE /\ outcome = "none"
@@ -185,6 +209,6 @@ AllCaught  == /\ PrintT(<<"@@NEG", Cardinality(TLCGet(2)), Cardinality(PermFams)
 
 (* ---- generator: one line per case with the expected verdict ---- *)
 Emit == pc = "recv" => PrintT(<<"@@", ToJson([f |-> c.f, role |-> c.role, U |-> c.U, S |-> c.S, pres |-> c.pres,
-                                               auth |-> c.az, eff |-> c.eff, con |-> c.con, req |-> c.req])>>)
+                                               auth |-> c.az, eff |-> c.eff, con |-> c.con, req |-> c.req, sib |-> c.sib])>>)
 GenStop == pc = "recv"      \* CONSTRAINT of the generator: do not expand beyond the initial states
 =============================================================================
